@@ -154,6 +154,7 @@ type Solver struct {
 	Stats       Stats
 	CrossCheck  bool // re-decide unsat verdicts with a second solver
 	inPath      bool
+	crossSeen   int
 	Log         io.Writer
 }
 
@@ -264,6 +265,12 @@ func parseModel(resp string, vars map[string]Sort) map[string]uint64 {
 // Check decides pc ∧ extra. With wantModel a model over all declared
 // variables is returned on sat.
 func (s *Solver) Check(extra *Term, wantModel bool) (Verdict, map[string]uint64) {
+	return s.CheckX(extra, wantModel, false)
+}
+
+// CheckX is Check; with isAssert (an assertion verdict, not a feasibility
+// probe) an unsat answer is re-decided on a second solver when CrossCheck is on.
+func (s *Solver) CheckX(extra *Term, wantModel bool, isAssert bool) (Verdict, map[string]uint64) {
 	start := time.Now()
 	s.Stats.Queries++
 	defer func() {
@@ -321,7 +328,7 @@ func (s *Solver) Check(extra *Term, wantModel bool) (Verdict, map[string]uint64)
 		if s.Log != nil {
 			fmt.Fprintf(s.Log, "escalated after %.1fs; fallback %.1fs -> %v\n", t1.Sub(start).Seconds(), time.Since(t1).Seconds(), v)
 		}
-	} else if v == Unsat && s.CrossCheck {
+	} else if v == Unsat && s.CrossCheck && isAssert && s.sampleCross() {
 		s.Stats.CrossChecked++
 		v2, _ := s.oneShot("cvc5", []string{"cvc5", "--produce-models", fmt.Sprintf("--tlimit=%d", s.FallbackMs)}, q.String(), false)
 		if v2 == Sat {
@@ -370,6 +377,13 @@ func (s *Solver) readWithDeadline(d time.Duration) (string, error) {
 		<-ch
 		return "", fmt.Errorf("primary solver timeout")
 	}
+}
+
+// sampleCross: the first 40 assertion verdicts of each worker are re-decided
+// on the second solver, then every 25th (process start-up dominates).
+func (s *Solver) sampleCross() bool {
+	s.crossSeen++
+	return s.crossSeen <= 40 || s.crossSeen%25 == 0
 }
 
 func (s *Solver) getModel() map[string]uint64 {
